@@ -84,7 +84,14 @@ def ops : List (String × Handler) := [
     let r := run cfg env fs
     let status := match r.val with | .ok _ => "ok" | .error e => "raises:" ++ errName e
     return Json.mkObj [("trace", Json.arr (r.trace.map effectJson).toArray), ("status", Json.str status),
-                       ("dirs", strs r.fs.dirs), ("files", strs (r.fs.files.map (·.1)))]),
+                       ("dirs", strs r.fs.dirs), ("files", strs (r.fs.files.map (·.1))),
+                       -- the domain of `C20.confined_partial` and what it is made of
+                       ("in_domain", Json.bool (inDomain cfg env fs)),
+                       ("items", nat r.items.length), ("items_not_ok", nat (r.items.filter (fun it => !itemOk it)).length),
+                       ("out_is_module", Json.bool (Py.endsWith (Py.replace cfg.out ['/'] ['.']) cfg.newModuleName)),
+                       ("all_under_out", Json.bool (r.trace.all (fun e => match e.target? with
+                                                                          | some p => underB cfg.out p
+                                                                          | none => true)))]),
   /- the gate of `exmod_single_folder` alone -/
   ("c20.gate", fun j => do
     let mp := modPathOf (← getChars j "module_root") (← getChars j "module_name")
